@@ -20,6 +20,7 @@ type SpecEnv struct {
 	macros   map[string]SExpr // contract-level `let` definitions, expanded where used
 	gh       map[string]Val   // ghost-state snapshot overriding st.gh (the entry environment used by old())
 	inOld    bool             // evaluating inside old(...)
+	localFallback func(name string) (Val, bool) // postconditions only: locals of the function (see postEnv)
 }
 
 type specFail struct{ msg string }
@@ -27,7 +28,7 @@ type specFail struct{ msg string }
 func sfail(format string, a ...any) { panic(specFail{fmt.Sprintf(format, a...)}) }
 
 func (e *SpecEnv) child() *SpecEnv {
-	n := &SpecEnv{names: map[string]Val{}, old: e.old, pkg: e.pkg, typeArgs: e.typeArgs, st: e.st, depth: e.depth, macros: e.macros, gh: e.gh, inOld: e.inOld}
+	n := &SpecEnv{names: map[string]Val{}, old: e.old, pkg: e.pkg, typeArgs: e.typeArgs, st: e.st, depth: e.depth, macros: e.macros, gh: e.gh, inOld: e.inOld, localFallback: e.localFallback}
 	for k, v := range e.names {
 		n.names[k] = v
 	}
@@ -258,6 +259,13 @@ func (f *Frame) specIdent(name string, env *SpecEnv) Val {
 	}
 	if env.st != nil {
 		if v, ok := env.st.gh[name]; ok {
+			return v
+		}
+	}
+	if env.localFallback != nil {
+		// a postcondition naming a local of the function: at an exit where the local was never assigned
+		// it stands for an arbitrary value of its type (the clause must hold for all of them)
+		if v, ok := env.localFallback(name); ok {
 			return v
 		}
 	}
@@ -647,6 +655,24 @@ func (f *Frame) specCall(x *SCall, env *SpecEnv) Val {
 			}
 			so := f.c.sorts.SortOf(m.Ty)
 			return Val{T: fmt.Sprintf("(select (%s.dom %s) %s)", so, m.T, k.T), IsBool: true}
+		case "calls":
+			// ghost counter: number of calls made so far to functions/methods with this name
+			an, ok := x.Args[0].(*SIdent)
+			if !ok || len(x.Args) != 1 {
+				sfail("calls(Name) takes one function name")
+			}
+			k := callsKey(an.Name)
+			if env.gh != nil {
+				if v, ok := env.gh[k]; ok {
+					return Val{T: v.T}
+				}
+			}
+			if env.st != nil {
+				if v, ok := env.st.gh[k]; ok {
+					return Val{T: v.T}
+				}
+			}
+			sfail("calls(%s): no such counter in this state", an.Name)
 		case "isnil":
 			v := f.specEval(x.Args[0], env)
 			st := env.st
